@@ -49,6 +49,29 @@ func genC07(tier string, run int, r *simcore.Rand) *harness.Plan {
 	attrs := []string{"title", "tag", "tag", "camliContent", "a|b"}
 	vals := []string{"a", "b", "a", "x y", "a|b", "é", "%"}
 	nclaims := r.Range(1, 12)
+	if run%25 == 11 {
+		// many values of one attribute (more than any small fixed buffer an
+		// implementation may fold them in), the first ones deleted by value,
+		// a few ordinary claims after them
+		pn := b.pns[0]
+		nv := r.Range(9, 14)
+		nd := r.Range(6, nv)
+		ds := make([]int64, nv+nd)
+		for i := range ds {
+			ds[i] = b.date()
+		}
+		if r.Bool(0.8) {
+			// mostly in date order: all values present, then deleted one by one
+			sort.Slice(ds, func(i, j int) bool { return ds[i] < ds[j] })
+		}
+		for i := 0; i < nv; i++ {
+			b.add(Item{K: "claim", PN: pn, S: b.items[pn].S, Attr: "tag", CT: "add", Val: fmt.Sprintf("v%02d", i), D: ds[i]})
+		}
+		for i := 0; i < nd; i++ {
+			b.add(Item{K: "claim", PN: pn, S: b.items[pn].S, Attr: "tag", CT: "del", Val: fmt.Sprintf("v%02d", i), D: ds[nv+i]})
+		}
+		nclaims = r.Range(1, 3)
+	}
 	for i := 0; i < nclaims; i++ {
 		pn := b.pick(b.pns)
 		it := Item{K: "claim", PN: pn, S: b.items[pn].S, Attr: attrs[r.Intn(len(attrs))], D: b.date()}
